@@ -118,6 +118,18 @@ class LazyDisk:
     def atexit(self) -> None:
         shutil.rmtree(self.dir, ignore_errors=True)
 
+    def __getattr__(self, name: str):
+        # anything else the Disk class offers (a method added by a later version of the library) runs as the real code does,
+        # synchronously, against this object's spill directory
+        attr = getattr(disk.Disk, name, None)
+        if attr is None:
+            raise AttributeError(name)
+        if callable(attr):
+            import functools
+
+            return functools.partial(attr, self)
+        return attr
+
 
 class SelfDeadlock(BaseException):  # not an Exception: the store's catch-all handlers must not swallow it
     pass
